@@ -102,8 +102,9 @@ def rect_axis(n, start=0):
 def make_spec(kind, dims, order, rev, inc, loc, variant=0):
     d = len(dims)
     if kind == "uniform":
-        return {"kind": "uniform", "dims": list(dims), "spacing": [[1, 2, 3], [2, 1, 4]][variant % 2][:d],
-                "origin": [[10, 20, 30], [0, -4, 7]][variant % 2][:d], "order": order, "rev": rev,
+        # variant 2: the same spacing and origin on every axis (with equal dims: x and y coordinates coincide)
+        return {"kind": "uniform", "dims": list(dims), "spacing": [[1, 2, 3], [2, 1, 4], [1, 1, 1]][variant % 3][:d],
+                "origin": [[10, 20, 30], [0, -4, 7], [0, 0, 0]][variant % 3][:d], "order": order, "rev": rev,
                 "inc": list(inc), "loc": loc}
     if kind == "rect":
         return {"kind": "rect", "axes": [rect_axis(n, 5 * (a + variant)) for a, n in enumerate(dims)],
